@@ -163,8 +163,8 @@ class _w_write_nbits:
     args = {"self": WRITER, "bits": "int", "value": "int"}
     requires = ["winv(self)"]
     modifies = FRAME_W
-    raises = {"OutOfRangeError": "value < 0 or blen(value) > bits", "ValueError": None}
-    raises_exact = True
+    raises = {"OutOfRangeError": "value < 0 or blen(value) > bits", "ValueError": "wbounded(self) and not fits(self, bits)"}
+    raises_exact = ["OutOfRangeError"]
     ensures = COMMON_W + [
         "implies(old(fits(self, bits)), wpos(self) == old(wpos(self)) + imax0(bits) and bitsval(wview(self), old(wpos(self)), bits) == value)",
         "implies(old(wbounded(self)) and old(fits(self, bits)), self._bits_remaining == old(self._bits_remaining) - imax0(bits))",
@@ -199,8 +199,8 @@ class _w_write_uint_lit:
     args = {"self": WRITER, "num_bytes": "int", "value": "int"}
     requires = ["winv(self)"]
     modifies = FRAME_W
-    raises = {"OutOfRangeError": "value < 0 or blen(value) > 8 * num_bytes", "ValueError": None}
-    raises_exact = True
+    raises = {"OutOfRangeError": "value < 0 or blen(value) > 8 * num_bytes", "ValueError": "wbounded(self) and not fits(self, 8 * num_bytes)"}
+    raises_exact = ["OutOfRangeError"]
     ensures = COMMON_W + [
         "implies(old(fits(self, 8 * num_bytes)), wpos(self) == old(wpos(self)) + imax0(8 * num_bytes) "
         "and bitsval(wview(self), old(wpos(self)), 8 * num_bytes) == value)",
@@ -218,8 +218,8 @@ class _w_write_uint:
     args = {"self": WRITER, "value": "int"}
     requires = ["winv(self)"]
     modifies = FRAME_W
-    raises = {"OutOfRangeError": "value < 0", "ValueError": None}
-    raises_exact = True
+    raises = {"OutOfRangeError": "value < 0", "ValueError": "wbounded(self) and not fits(self, eg_len(value))"}
+    raises_exact = ["OutOfRangeError"]
     ensures = COMMON_W + [
         "implies(old(fits(self, eg_len(value))), wpos(self) == old(wpos(self)) + eg_len(value) and ue_pattern(wview(self), old(wpos(self)), value))",
         "implies(old(fits(self, eg_len(value))), ue_val(wview(self), old(wpos(self)), 1) == value and ue_end(wview(self), old(wpos(self))) == wpos(self))",
@@ -258,7 +258,7 @@ class _w_write_sint:
     args = {"self": WRITER, "value": "int"}
     requires = ["winv(self)"]
     modifies = FRAME_W
-    raises = {"ValueError": None}
+    raises = {"ValueError": "wbounded(self) and not fits(self, 1 if value == 0 else eg_len(abs(value)) + 1)"}
     ensures = COMMON_W + [
         "implies(value == 0 and old(fits(self, 1)), wpos(self) == old(wpos(self)) + 1 and ue_pattern(wview(self), old(wpos(self)), 0))",
         "implies(value != 0 and old(fits(self, eg_len(abs(value)) + 1)), wpos(self) == old(wpos(self)) + eg_len(abs(value)) + 1 "
@@ -305,3 +305,33 @@ class _w_seek:
         "same_before(content(self._file), old(wview(self)), old(wpos(self)))",
     ]
     ghost = {"entry": ["define(tbit)"]}
+
+
+# ---- native generators (replay / bounded stand-in) ------------------------------------------------
+
+
+def gen_writer(rng):
+    import io
+    from vc2_conformance.bitstream.io import BitstreamWriter
+
+    f = io.BytesIO(bytes(rng.randrange(256) for _ in range(rng.randint(0, 4))))
+    f.seek(rng.randint(0, len(f.getvalue())))
+    w = BitstreamWriter(f)
+    for _ in range(rng.randint(0, 11)):
+        w.write_bit(rng.randint(0, 1))
+    if rng.random() < 0.5:
+        w.bounded_block_begin(rng.randint(-2, 24))
+        for _ in range(rng.randint(0, 4)):
+            w.write_bit(1)
+    return w
+
+
+def gen_file(rng):
+    import io
+
+    f = io.BytesIO(bytes(rng.randrange(256) for _ in range(rng.randint(0, 5))))
+    f.seek(rng.randint(0, len(f.getvalue())))
+    return f
+
+
+GENERATORS = {"obj:BitstreamWriter": gen_writer, "file": gen_file}
